@@ -3,6 +3,7 @@ CONSTANTS
   Buffered = {"B"}
   MaxPublish = 2
   MaxCalls = 6
+  Handlers = {}
   WithDone = TRUE
 SPECIFICATION Spec
 INVARIANTS CloseNeverWedges MutexSane
